@@ -47,6 +47,17 @@ class EventHeap:
         # Set via _active_sim_context so Event/ProcessContinuation use it.
         self._event_counter: count = count()
 
+    def seed_event_counter(self) -> None:
+        """Start the per-heap counter after the highest index already scheduled.
+
+        Events created before ``run()`` take their tie-break index from the global
+        counter, events created during the run from this heap's counter.  Seeding
+        keeps one increasing sequence, so an event created during the run sorts
+        after every earlier-created event that shares its timestamp.
+        """
+        start = max((event._sort_index for event in self._heap), default=-1) + 1
+        self._event_counter = count(start)
+
     def set_current_time(self, time: Instant) -> None:
         """Update the current simulation time for accurate trace timestamps."""
         self._current_time = time
